@@ -130,7 +130,8 @@ def opLine2 (h : Hist) (toks : List String) : Hist × String :=
   | "c" :: rest =>
     match parseIds rest with
     | some (marks, r) => match parseIds r with
-      | some (order, _) => doOp h "c" (Op.collect marks order)
+      -- (the harness sets *exactly* these mark bits before GC_Sweep: bits an abandoned mark phase left are overwritten)
+      | some (order, _) => doOp { h with st := { h.st with marked := [] } } "c" (Op.collect marks order)
       | none => bad
     | none => bad
   | "g" :: rest =>
